@@ -183,6 +183,12 @@ def prove_path(entry, path, opts):
             claimchecks.append(('claim:' + name, pc + ["(not (%s %s %s))" % (op, C.rat_smt(C.val[l]), C.rat_smt(C.val[r]))]))
     rs = smt.run_checks(pre, sidechecks + claimchecks, per_check_ms=opts.get('per_check_ms', 20000), jobs=opts.get('jobs', 4))
     for lab, _ in sidechecks: side.append((lab, rs[lab][0]))
+    if opts.get('nonfinite_check'):
+        dens = C.denominators()
+        bad = [dens[int(lab[4:])] for lab, _ in sidechecks if lab.startswith('den:') and rs[lab][0] == 'sat'][:3]
+        if bad:
+            try: res['den_roots'] = den_roots(C, entry, path, bad)
+            except Exception as ex: res['den_roots_error'] = repr(ex)
     res['side'] = len(side); res['side_ok'] = sum(1 for _, v in side if v == 'unsat')
     res['side_fail'] = [(l, v) for l, v in side if v != 'unsat'][:20]
     for lab, _ in claimchecks:
@@ -336,6 +342,62 @@ def numeric_search(entry, path, names, nsamples=40, seed=0, tol=1e-20, extra=(),
             if bad: found[nm] = (asg, float(lv), float(rv))
     return found, npc
 
+
+def _poly_eval(C, p, val, mp):
+    tot = mp.mpf(0)
+    for mon, coef in p.terms():
+        t = mp.mpf(int(coef.numerator)) / mp.mpf(int(coef.denominator))
+        for gi, e in zip(C.atoms, mon):
+            if e: t *= val[gi] ** e
+        tot += t
+    return tot
+
+def den_roots(C, entry, path, dens, nscan=1200):
+    """sat-side helper: zeros of a denominator along the ray through the witness (rotation variables scaled)."""
+    import mpmath as mp
+    mp.mp.dps = 40
+    nodes = entry.nodes
+    rotvars = set()
+    for (i, inside) in C.sqrt_defs:
+        for mon, coef in inside.terms():
+            for gi, e in zip(C.atoms, mon):
+                if e and nodes[gi].op == 'var': rotvars.add(gi)
+    if not rotvars:
+        for kk, A in C.trigargs.items():
+            for mon, coef in A[0].terms():
+                for gi, e in zip(C.atoms, mon):
+                    if e and nodes[gi].op == 'var': rotvars.add(gi)
+    if not rotvars: return []
+    allvars = [a for a in C.atoms if a >= 0 and nodes[a].op == 'var']
+    atoms = [a for a in C.atoms if a >= 0]
+    base = {v: mp.mpf(nodes[v].w) for v in allvars}
+    nrm = mp.sqrt(sum(base[v] ** 2 for v in rotvars)) or mp.mpf(1)
+    def point(theta):
+        asg = dict(base)
+        for v in rotvars: asg[v] = base[v] / nrm * theta
+        return asg
+    out = []
+    for d in dens:
+        def f(theta):
+            val = dagm.numeval(nodes, atoms, point(theta), mp)
+            return _poly_eval(C, d, val, mp)
+        prev_t, prev_v = None, None
+        for k in range(1, nscan + 1):
+            th = mp.mpf(13) * k / nscan
+            try: v = f(th)
+            except Exception: prev_t = None; continue
+            if prev_t is not None and (v == 0 or (v > 0) != (prev_v > 0)):
+                lo, hi, flo = prev_t, th, prev_v
+                for _ in range(80):
+                    mid = (lo + hi) / 2; fm = f(mid)
+                    if (fm > 0) == (flo > 0): lo, flo = mid, fm
+                    else: hi = mid
+                for cand in (lo, hi):
+                    asg = point(cand)
+                    out.append({v_: float(x) for v_, x in asg.items()})
+            prev_t, prev_v = th, v
+        if len(out) >= 8: break
+    return out[:8]
 
 def solver_confirm(entry, path, name, asg, timeout_ms=20000):
     """Direct encoding of the raw DAG with the inputs pinned to the candidate point: the solver must return sat
